@@ -55,8 +55,7 @@ Proof.
   eapply request_enabled with (c := cq); try eassumption.
   - rewrite Hoth by assumption. assumption.
   - specialize (Hns i o). lia.
-  - pose proof params_ok_now as P. unfold params_ok in P. repeat (apply andb_prop in P; destruct P as [P ?]).
-    match goal with K : (0 <? overlapped) = true |- _ => apply N.ltb_lt in K; exact K end.
+  - exact overlapped_pos.
 Qed.
 
 (* voided_reissued, choke: RequestList::choked moves EVERY live request to the choked bucket (unless
@@ -143,8 +142,7 @@ Theorem eventually_requested_partial : forall s p c i o l,
 Proof.
   intros s p c i o l G Hi Hu V Hh Hc Hw Hf Ho Hla Hn.
   assert (Hov : 0 < overlapped).
-  { pose proof params_ok_now as P. unfold params_ok in P. repeat (apply andb_prop in P; destruct P as [P ?]).
-    match goal with K : (0 <? overlapped) = true |- _ => apply N.ltb_lt in K; exact K end. }
+  { exact overlapped_pos. }
   destruct (request_enabled s p c i o l G Hi Hu V Hh Hc (or_intror Hw) Hf Ho Hla Hn Hov) as (s' & A).
   exists s'. split; [assumption|]. cbn [accept] in A. rewrite G in A.
   match type of A with (if ?b then _ else _) = _ => destruct b end; [|discriminate]. inversion A. cbn.
